@@ -244,10 +244,16 @@ int main(int argc, char** argv) {
               std::string inner = "(" + A.str() + " " + opName(o1) + " " + B.str() + ")" + (forced ? "!" : "");
               std::string prog = right ? C.str() + " " + opName(o2) + " " + inner : inner + " " + opName(o2) + " " + C.str();
               c.describe(prog);
-              Manifold ab = boxManifold(A).Boolean(boxManifold(B), o1);
-              if (forced) (void)ab.NumTri();
               Manifold cm = boxManifold(C);
-              Manifold r = right ? cm.Boolean(ab, o2) : ab.Boolean(cm, o2);
+              Manifold r;
+              if (forced) {
+                Manifold ab = boxManifold(A).Boolean(boxManifold(B), o1);
+                (void)ab.NumTri();
+                r = right ? cm.Boolean(ab, o2) : ab.Boolean(cm, o2);
+              } else {
+                // temporaries (no named handle on the inner node): the evaluator may flatten it into its parent
+                r = right ? cm.Boolean(boxManifold(A).Boolean(boxManifold(B), o1), o2) : boxManifold(A).Boolean(boxManifold(B), o1).Boolean(cm, o2);
+              }
               uint64_t mab = voxOp(voxMask(A, N), voxMask(B, N), o1), mc = voxMask(C, N);
               uint64_t want = right ? voxOp(mc, mab, o2) : voxOp(mab, mc, o2);
               std::string why = judgeLattice(r, want, N);
@@ -297,9 +303,15 @@ int main(int argc, char** argv) {
               std::string tn = std::string("T") + char('0' + t[0]) + char('0' + t[1]) + char('0' + t[2]);
               std::string prog = "((" + A.str() + opName(o1) + B.str() + ")" + opName(o2) + C.str() + ")" + (forced ? "!" : "") + "." + tn + opName(o3) + D.str();
               c.describe(prog);
-              Manifold in = boxManifold(A).Boolean(boxManifold(B), o1).Boolean(boxManifold(C), o2);
-              if (forced) (void)in.NumTri();
-              Manifold r = in.Translate({double(t[0]), double(t[1]), double(t[2])}).Boolean(boxManifold(D), o3);
+              Manifold r;
+              if (forced) {
+                Manifold in = boxManifold(A).Boolean(boxManifold(B), o1).Boolean(boxManifold(C), o2);
+                (void)in.NumTri();
+                r = in.Translate({double(t[0]), double(t[1]), double(t[2])}).Boolean(boxManifold(D), o3);
+              } else {
+                // one expression: the intermediates are temporaries, so the evaluator may collapse / flatten them
+                r = boxManifold(A).Boolean(boxManifold(B), o1).Boolean(boxManifold(C), o2).Translate({double(t[0]), double(t[1]), double(t[2])}).Boolean(boxManifold(D), o3);
+              }
               uint64_t m = voxOp(voxOp(voxMask(shifted(A), N), voxMask(shifted(B), N), o1), voxMask(shifted(C), N), o2);
               uint64_t want = voxOp(m, voxMask(D, N), o3);
               std::string why = judgeLattice(r, want, N);
@@ -576,23 +588,31 @@ int main(int argc, char** argv) {
     static const double OFF[3] = {-0.21, 0.07, 0.33};
     // every leaf also far from the origin with the plane on either side of it (the half-space cutter is sized from
     // the bounding box and the plane offset)
+    // far placements are made per case below: the object is moved to +-4 along the plane normal
     std::vector<Leaf> LP = L;
     for (size_t i = 0; i < L.size(); i += 5) {
-      Leaf f;
+      Leaf f = L[i];
       f.name = L[i].name + ".far";
-      f.m = L[i].m.Translate({4.0, -3.0, 2.5});
-      f.soup = soupOf(f.m);
-      f.vol = f.m.Volume();
       LP.push_back(f);
     }
     static const double OFFFAR[3] = {-4.1, 0.2, 3.9};
     R.phase("gp-planes", LP.size() * 12, 12,
             [&](uint64_t idx, Ctx& c) {
-              const Leaf& A = LP[idx / 12];
               int k = idx % 12;
               vec3 n(NRM[k / 3][0], NRM[k / 3][1], NRM[k / 3][2]);
               const bool far = idx / 12 >= L.size();
               double off = far ? OFFFAR[k % 3] : OFF[k % 3];
+              Leaf moved;
+              if (far) {
+                // object on one side of the origin along the normal, plane on the other side (offsets -4.1 / 3.9) or near it (0.2)
+                vec3 nh = la::normalize(n);
+                double s4 = (k % 3 == 2) ? -4.0 : 4.0;
+                moved = LP[idx / 12];
+                moved.m = moved.m.Translate(nh * s4 + vec3(0.3, -0.2, 0.1));
+                moved.soup = soupOf(moved.m);
+                moved.vol = moved.m.Volume();
+              }
+              const Leaf& A = far ? moved : LP[idx / 12];
               std::ostringstream ps;
               ps << "SplitByPlane(" << A.name << ", n" << k / 3 << ", " << off << ")";
               std::string prog = ps.str();
